@@ -98,7 +98,12 @@ def gen_scenario(ctx, k):
         # enabled): the receiver handles it with the locks it always takes, the starting thread must not be holding them while it waits
         for j in range(rng.randrange(2, 9)):
             trig = C(rng.choice(['MSG_NODETAB_GETNEXT', 'MSG_NODETAB_GETNEXT', 'MSG_NODETAB_GETALL', 'MSG_FEATURE_SET', 'MSG_SYS_ENABLE', 'MSG_GET_PKT_CAPACITY', 'MSG_CS_SET_STATE']))
-            if rng.random() < 0.6:
+            leafs = [b for b in cfg['boards'] if m.connected(b['id']) and m.addr[b['id']] != (0, 0, 0) and m.addr[b['id']][1] == 0 and not cfggen.is_interface(b)]
+            if leafs and rng.random() < 0.3:
+                # a node notice (the receiver needs the boards WRITE lock for it) while the starting thread waits for answers
+                L_ = rng.choice(leafs)
+                ad_, t_, data_ = (0, 0, 0), C(rng.choice(['MSG_NODE_LOST', 'MSG_NODE_NEW'])), bytes([2 + j, m.addr[L_['id']][0]]) + L_['uid']
+            elif rng.random() < 0.6:
                 ad_, t_, data_ = gen_feedback(rng, m, cfg, nodes)
             else:
                 n_ = rng.choice(['MSG_SYS_ERROR', 'MSG_BOOST_STAT', 'MSG_NODE_NA', 'MSG_LC_NA', 'MSG_VENDOR', 'MSG_BM_CURRENT', 'MSG_ACCESSORY_STATE'])
